@@ -55,6 +55,7 @@ def run(ctx):
         for L in ('SafeLoader', 'CSafeLoader', 'BaseLoader', 'CBaseLoader'):
             if L.startswith('C') and ctx.rng.random() < 0.5 and ctx.quick(): continue
             cases.append([t, L])
+    ctx.rng.shuffle(cases)      # every worker interleaves the four loader classes in random order: state shared between classes shows up as a history effect
     corr.direct(ctx, 'c01', cases, describe=lambda c: dict(text=c[0], loader=c[1]), label='confined')
     ctx.partial = [dict(theorem='safe_construct_plain / unknown_tag_rejected (every nesting)', missing='not proved over the constructor model; decided by the construct correspondence and the direct run under audit/profile hooks')]
     ctx.refuted = [dict(theorem='safe_only_yaml_errors (FULL)', witness='!!int abc -> ValueError (known finding F-explicit-tag-unsuitable-payload)')]
